@@ -12,10 +12,9 @@ use std::io::Write;
 use std::os::unix::fs::FileExt;
 use std::os::unix::process::ExitStatusExt;
 use std::path::{Path, PathBuf};
-use std::sync::atomic::{AtomicU8, AtomicUsize, Ordering};
 use std::time::{Duration, Instant};
 
-use damagemc::alloc::{self, CountingAlloc};
+use damagemc::alloc::CountingAlloc;
 use damagemc::damage::{self, Damage, Plan};
 use damagemc::fixtures::{self, Fixture, Kind, Truth};
 use damagemc::observe::{self, Ctx, Finding, LogObs, LogRef, ManiObs, ManiState, SstObs, StoreObs};
@@ -59,6 +58,9 @@ struct CaseResult {
     nontrivial: bool,
     calls: u64,
     summary: String,
+    /// no step returned an error or panicked
+    all_ok: bool,
+    max_alloc: usize,
 }
 
 fn machinery(msg: &str) -> ! {
@@ -69,7 +71,14 @@ fn machinery(msg: &str) -> ! {
 impl Runner {
     fn new(name: &str) -> Runner {
         let fx = fixtures::build_fixture(name);
-        let limit = (64usize << 20).max(4 * fx.pristine().len());
+        // "Never attempts an unbounded allocation": SST blocks are bounded by the file; a log
+        // frame is bounded by the code's own documented cap, sst::TABLE_FULL_SIZE (the reader
+        // refuses larger frames before allocating).  A request within that cap is bounded, so it
+        // is not flagged for logs (DESIGN.md 4, C09); anything larger is.
+        let limit = match fx.kind {
+            fixtures::Kind::Log => sst::TABLE_FULL_SIZE + (4 << 20),
+            _ => (64usize << 20).max(4 * fx.pristine().len()),
+        };
         let scratch = Scratch::new("pristine");
         let dir = scratch.sub("d");
         fx.write_dir(&dir, None);
@@ -308,7 +317,7 @@ impl Runner {
                 out.push((
                     sig,
                     format!(
-                        "{} damaged at {}: step {step} requested a single allocation of {bytes} bytes; the file has {} bytes (limit max(64 MiB, 4 x file size) = {}) -- {}",
+                        "{} damaged at {}: step {step} requested a single allocation of {bytes} bytes; the file has {} bytes (limit {}) -- {}",
                         self.fx.name,
                         self.where_text(d),
                         damaged.len(),
@@ -324,27 +333,56 @@ impl Runner {
             nontrivial,
             calls: ctx.calls,
             summary,
+            all_ok: ctx.errs == 0,
+            max_alloc: ctx.max_alloc,
         }
     }
 }
 
 ////////////////////////////////////////////// child ///////////////////////////////////////////////
 
-fn slot_id() -> usize {
-    static NEXT: AtomicUsize = AtomicUsize::new(0);
-    thread_local! {
-        static SLOT: usize = NEXT.fetch_add(1, Ordering::Relaxed);
+/// Run `f` with stdout pointed at /dev/null (the subject prints from Manifest::verify).
+fn quiet_stdout<R>(f: impl FnOnce() -> R) -> R {
+    std::io::stdout().flush().ok();
+    let (saved, null) = unsafe {
+        let saved = libc::dup(1);
+        let null = libc::open(c"/dev/null".as_ptr(), libc::O_WRONLY);
+        if null >= 0 {
+            libc::dup2(null, 1);
+        }
+        (saved, null)
+    };
+    let r = f();
+    std::io::stdout().flush().ok();
+    unsafe {
+        if saved >= 0 {
+            libc::dup2(saved, 1);
+            libc::close(saved);
+        }
+        if null >= 0 {
+            libc::close(null);
+        }
     }
-    SLOT.with(|s| *s)
+    r
 }
 
-const MAX_SLOTS: usize = 256;
+/// Cases per work unit of a shard: small for the ~1 MiB files, whose cases are expensive.
+fn chunk_size(fx: &Fixture) -> usize {
+    if fx.pristine().len() > 65536 || fx.kind == Kind::Store {
+        16
+    } else {
+        256
+    }
+}
 
+/// One shard of one fixture's sweep, single-threaded (the subject's global counters make threads
+/// inside one process contend; processes do not).
 fn child_main(args: &Args) {
     let name = args.get("fixture").expect("--fixture").to_string();
     let workdir = PathBuf::from(args.get("workdir").expect("--workdir"));
     let thorough = args.tier_thorough();
-    // the subject prints from Manifest::verify; keep stdout quiet
+    let shard = args.usize("shard", 0);
+    let nshards = args.usize("nshards", 1);
     unsafe {
         let fd = libc::open(c"/dev/null".as_ptr(), libc::O_WRONLY);
         if fd >= 0 {
@@ -367,116 +405,129 @@ fn child_main(args: &Args) {
         .truncate(true)
         .read(true)
         .write(true)
-        .open(workdir.join("ahead.bin"))
+        .open(workdir.join(format!("ahead-{shard}.bin")))
         .expect("ahead file");
-    ahead
-        .write_all_at(&vec![0u8; MAX_SLOTS * 8], 0)
-        .expect("ahead init");
-    let flags: Vec<AtomicU8> = (0..cases.len()).map(|_| AtomicU8::new(0)).collect();
-    let chunk = if thorough { 1024 } else { 256 };
-    let mut items: Vec<(usize, usize)> = vec![];
-    match only {
-        Some(i) => items.push((i, i + 1)),
-        None => {
-            let mut s = 0;
-            while s < cases.len() {
-                items.push((s, (s + chunk).min(cases.len())));
-                s += chunk;
+    ahead.write_all_at(&0u64.to_le_bytes(), 0).expect("ahead init");
+    let mut flags: Vec<u8> = vec![0; cases.len()];
+    let mut max_subject_alloc = 0usize;
+    let mut rep = Report::new(&format!("damage-{name}"), PROP);
+    let scratch = Scratch::new("dmg");
+    // DAMAGEMC_SELFTEST_ABORT=<fixture>:<case index> exercises the abort attribution path
+    let selftest_abort: Option<usize> = std::env::var("DAMAGEMC_SELFTEST_ABORT")
+        .ok()
+        .and_then(|v| {
+            let (f, i) = v.split_once(':')?;
+            if f == name { i.parse().ok() } else { None }
+        });
+    let chunk = chunk_size(&runner.fx);
+    let indices: Vec<usize> = match only {
+        Some(i) => vec![i],
+        None => (0..cases.len())
+            .filter(|i| (i / chunk) % nshards == shard)
+            .collect(),
+    };
+    for idx in indices {
+        if skip.contains(&idx) {
+            rep.count("cases_skipped_after_abort", 1);
+            continue;
+        }
+        let d = &cases[idx];
+        ahead
+            .write_all_at(&(idx as u64 + 1).to_le_bytes(), 0)
+            .expect("write ahead");
+        if selftest_abort == Some(idx) {
+            // machinery self-test: pretend the subject aborted on this case
+            std::process::abort();
+        }
+        let r = runner.run_case(&scratch, d);
+        rep.evaluations += 1;
+        rep.transitions += r.calls;
+        rep.outcomes.insert(r.outcome);
+        flags[idx] = if r.nontrivial { 3 } else { 1 };
+        rep.count(&format!("cases:{}:{}", runner.fx.kind.name(), d.class()), 1);
+        let verdict = if !r.findings.is_empty() {
+            "flagged"
+        } else if r.all_ok {
+            "no-error"
+        } else {
+            "detected"
+        };
+        rep.count(
+            &format!(
+                "verdict:{}:{}:{verdict}",
+                runner.fx.kind.name(),
+                runner.region_name(d)
+            ),
+            1,
+        );
+        max_subject_alloc = max_subject_alloc.max(r.max_alloc);
+        if idx % 4099 == 7 {
+            rep.sample(json!({
+                "case": runner.case_json(d),
+                "region": runner.region_name(d),
+                "observed": r.summary,
+            }));
+        }
+        if !r.findings.is_empty() {
+            // replay before report
+            let again = runner.run_case(&scratch, d);
+            for (sig, detail) in r.findings.iter() {
+                if !again.findings.iter().any(|(s, _)| s == sig) {
+                    rep.count("non_reproducible_findings", 1);
+                    continue;
+                }
+                rep.violation(Violation {
+                    property: PROP.to_string(),
+                    signature: sig.clone(),
+                    detail: detail.clone(),
+                    case: runner.case_json(d),
+                });
             }
         }
     }
-    let threads = if only.is_some() { 1 } else { args.threads() };
-    let job = format!("damage-{name}");
-    let mk = || Report::new(&job, PROP);
-    let total = vcore::parallel(items, threads, mk, |(lo, hi), rep| {
-        let scratch = Scratch::new("dmg");
-        let slot = slot_id() % MAX_SLOTS;
-        for idx in *lo..*hi {
-            if skip.contains(&idx) {
-                rep.count("cases_skipped_after_abort", 1);
-                continue;
-            }
-            let d = &cases[idx];
-            ahead
-                .write_all_at(&(idx as u64 + 1).to_le_bytes(), (slot * 8) as u64)
-                .expect("write ahead");
-            let r = runner.run_case(&scratch, d);
-            rep.evaluations += 1;
-            rep.traces_validated += 1;
-            rep.transitions += r.calls;
-            rep.outcomes.insert(r.outcome);
-            flags[idx].store(if r.nontrivial { 3 } else { 1 }, Ordering::Relaxed);
-            rep.count(&format!("cases:{}:{}", runner.fx.kind.name(), d.class()), 1);
-            if idx % 4099 == 7 {
-                rep.sample(json!({
-                    "case": runner.case_json(d),
-                    "region": runner.region_name(d),
-                    "observed": r.summary,
-                }));
-            }
-            if !r.findings.is_empty() {
-                // replay before report
-                let again = runner.run_case(&scratch, d);
-                for (sig, detail) in r.findings.iter() {
-                    if !again.findings.iter().any(|(s, _)| s == sig) {
-                        rep.count("non_reproducible_findings", 1);
-                        continue;
-                    }
-                    rep.violation(Violation {
-                        property: PROP.to_string(),
-                        signature: sig.clone(),
-                        detail: detail.clone(),
-                        case: runner.case_json(d),
-                    });
-                }
-            }
-        }
-        ahead
-            .write_all_at(&0u64.to_le_bytes(), (slot * 8) as u64)
-            .expect("write ahead");
-    });
-    let flag_bytes: Vec<u8> = flags.iter().map(|f| f.load(Ordering::Relaxed)).collect();
-    std::fs::write(workdir.join("flags.bin"), &flag_bytes).expect("flags");
+    ahead.write_all_at(&0u64.to_le_bytes(), 0).expect("write ahead");
+    std::fs::write(workdir.join(format!("flags-{shard}.bin")), &flags).expect("flags");
     let result = json!({
         "fixture": name,
         "cases": cases.len(),
         "dropped_duplicate_overwrites": dropped,
-        "evaluations": total.evaluations,
-        "transitions": total.transitions,
-        "outcomes": total.outcomes.iter().collect::<Vec<_>>(),
-        "samples": total.samples,
-        "violations": total.violations.iter().map(|v| json!({
+        "evaluations": rep.evaluations,
+        "transitions": rep.transitions,
+        "outcomes": rep.outcomes.iter().collect::<Vec<_>>(),
+        "samples": rep.samples,
+        "violations": rep.violations.iter().map(|v| json!({
             "signature": v.signature, "detail": v.detail, "case": v.case,
         })).collect::<Vec<_>>(),
-        "violation_sigs": total.violation_sigs,
-        "counters": total.counters,
-        "describe": runner.fx.describe,
-        "global_max_alloc": alloc::global_max(),
+        "violation_sigs": rep.violation_sigs,
+        "counters": rep.counters,
+        "global_max_alloc": max_subject_alloc,
     });
-    let tmp = workdir.join("result.json.tmp");
+    let tmp = workdir.join(format!("result-{shard}.json.tmp"));
     std::fs::write(&tmp, serde_json::to_string(&result).unwrap()).expect("result");
-    std::fs::rename(&tmp, workdir.join("result.json")).expect("rename result");
+    std::fs::rename(&tmp, workdir.join(format!("result-{shard}.json"))).expect("rename result");
 }
 
 ////////////////////////////////////////////// parent //////////////////////////////////////////////
 
-enum ChildEnd {
-    Clean,
-    /// killed by a signal / non-zero exit / timeout; text for the report
-    Died(String),
+struct Spawned {
+    child: std::process::Child,
+    started: Instant,
+    timeout: Duration,
 }
 
 fn spawn_child(
     name: &str,
     tier: &str,
     workdir: &Path,
-    threads: usize,
+    shard: usize,
+    nshards: usize,
     extra: &[(&str, String)],
     timeout: Duration,
-) -> ChildEnd {
-    let _ = std::fs::remove_file(workdir.join("result.json"));
+) -> Spawned {
+    let _ = std::fs::remove_file(workdir.join(format!("result-{shard}.json")));
     let exe = std::env::current_exe().expect("current_exe");
-    let stderr = std::fs::File::create(workdir.join("stderr.txt")).expect("stderr file");
+    let stderr =
+        std::fs::File::create(workdir.join(format!("stderr-{shard}.txt"))).expect("stderr file");
     let mut cmd = std::process::Command::new(exe);
     cmd.arg("--child")
         .arg("--fixture")
@@ -485,63 +536,98 @@ fn spawn_child(
         .arg(tier)
         .arg("--workdir")
         .arg(workdir)
-        .arg("--threads")
-        .arg(threads.to_string());
+        .arg("--shard")
+        .arg(shard.to_string())
+        .arg("--nshards")
+        .arg(nshards.to_string());
     for (k, v) in extra {
         cmd.arg(format!("--{k}")).arg(v);
     }
     cmd.stdout(std::process::Stdio::null()).stderr(stderr);
-    let mut child = cmd.spawn().expect("spawn child");
-    let start = Instant::now();
+    Spawned {
+        child: cmd.spawn().expect("spawn child"),
+        started: Instant::now(),
+        timeout,
+    }
+}
+
+/// None: still running.  Some(None): finished cleanly.  Some(Some(how)): died.
+fn poll_child(sp: &mut Spawned, name: &str, workdir: &Path, shard: usize) -> Option<Option<String>> {
+    match sp.child.try_wait().expect("wait") {
+        Some(st) => {
+            if st.success() && workdir.join(format!("result-{shard}.json")).exists() {
+                return Some(None);
+            }
+            if st.code() == Some(2) {
+                machinery(&format!(
+                    "child for {name} reported: {}",
+                    stderr_tail(workdir, shard)
+                ));
+            }
+            let how = match (st.signal(), st.code()) {
+                (Some(s), _) => format!("signal {s}"),
+                (_, Some(c)) => format!("exit code {c}"),
+                _ => "unknown".into(),
+            };
+            Some(Some(how))
+        }
+        None => {
+            if sp.started.elapsed() > sp.timeout {
+                let _ = sp.child.kill();
+                let _ = sp.child.wait();
+                return Some(Some(format!(
+                    "hang (no result after {} s)",
+                    sp.timeout.as_secs()
+                )));
+            }
+            None
+        }
+    }
+}
+
+fn wait_child(mut sp: Spawned, name: &str, workdir: &Path, shard: usize) -> Option<String> {
     loop {
-        match child.try_wait().expect("wait") {
-            Some(st) => {
-                if st.success() && workdir.join("result.json").exists() {
-                    return ChildEnd::Clean;
-                }
-                let how = match (st.signal(), st.code()) {
-                    (Some(s), _) => format!("killed by signal {s}"),
-                    (_, Some(c)) => format!("exit code {c}"),
-                    _ => "unknown".into(),
-                };
-                if st.code() == Some(2) {
-                    let e = std::fs::read_to_string(workdir.join("stderr.txt")).unwrap_or_default();
-                    machinery(&format!("child for {name} reported: {e}"));
-                }
-                return ChildEnd::Died(how);
-            }
-            None => {
-                if start.elapsed() > timeout {
-                    let _ = child.kill();
-                    let _ = child.wait();
-                    return ChildEnd::Died(format!("hang (no result after {} s)", timeout.as_secs()));
-                }
-                std::thread::sleep(Duration::from_millis(20));
-            }
+        if let Some(r) = poll_child(&mut sp, name, workdir, shard) {
+            return r;
         }
+        std::thread::sleep(Duration::from_millis(5));
     }
 }
 
-fn in_flight(workdir: &Path) -> Vec<usize> {
-    let b = std::fs::read(workdir.join("ahead.bin")).unwrap_or_default();
-    let mut v = vec![];
-    for c in b.chunks(8) {
-        if c.len() == 8 {
-            let x = u64::from_le_bytes(c.try_into().unwrap());
-            if x > 0 {
-                v.push((x - 1) as usize);
-            }
+fn in_flight(workdir: &Path, shard: usize) -> Option<usize> {
+    let b = std::fs::read(workdir.join(format!("ahead-{shard}.bin"))).unwrap_or_default();
+    if b.len() >= 8 {
+        let x = u64::from_le_bytes(b[..8].try_into().unwrap());
+        if x > 0 {
+            return Some((x - 1) as usize);
         }
     }
-    v.sort();
-    v.dedup();
-    v
+    None
 }
 
-fn stderr_tail(workdir: &Path) -> String {
-    let s = std::fs::read_to_string(workdir.join("stderr.txt")).unwrap_or_default();
+fn stderr_tail(workdir: &Path, shard: usize) -> String {
+    let s = std::fs::read_to_string(workdir.join(format!("stderr-{shard}.txt"))).unwrap_or_default();
     let lines: Vec<&str> = s.lines().rev().take(4).collect();
     lines.into_iter().rev().collect::<Vec<_>>().join(" | ")
+}
+
+struct FixtureWork {
+    name: String,
+    runner: Runner,
+    cases: Vec<Damage>,
+    workdir: PathBuf,
+    nshards: usize,
+    done_shards: usize,
+    failed: bool,
+    started: Option<Instant>,
+    finished: Option<Instant>,
+}
+
+struct Job {
+    fixture: usize,
+    shard: usize,
+    skip: Vec<usize>,
+    restarts: usize,
 }
 
 fn parent_main(args: &Args) {
@@ -557,53 +643,119 @@ fn parent_main(args: &Args) {
     let work = Scratch::new("damage-parent");
     let per_case_timeout = Duration::from_secs(60);
     let sweep_timeout = Duration::from_secs(if thorough { 1500 } else { 300 });
-    let mut fixtures_json = vec![];
+    let mut fws: Vec<FixtureWork> = vec![];
     for name in names.iter() {
-        let started = Instant::now();
-        let runner = Runner::new(name);
+        let runner = quiet_stdout(|| Runner::new(name));
         let (cases, dropped) = runner.cases(thorough);
         total.pruned_noops += dropped;
         let workdir = work.sub(name);
         std::fs::create_dir_all(&workdir).expect("workdir");
-        let mut skip: Vec<usize> = vec![];
-        let mut restarts = 0;
-        loop {
+        let nshards = cases
+            .len()
+            .div_ceil(8 * chunk_size(&runner.fx))
+            .clamp(1, threads.max(1));
+        fws.push(FixtureWork {
+            name: name.clone(),
+            runner,
+            cases,
+            workdir,
+            nshards,
+            done_shards: 0,
+            failed: false,
+            started: None,
+            finished: None,
+        });
+    }
+    // biggest fixtures first
+    let mut order: Vec<usize> = (0..fws.len()).collect();
+    order.sort_by_key(|i| {
+        std::cmp::Reverse(fws[*i].cases.len() as u64 * (fws[*i].runner.fx.pristine().len() as u64 + 4096))
+    });
+    let mut queue: std::collections::VecDeque<Job> = std::collections::VecDeque::new();
+    for i in order {
+        for shard in 0..fws[i].nshards {
+            queue.push_back(Job {
+                fixture: i,
+                shard,
+                skip: vec![],
+                restarts: 0,
+            });
+        }
+    }
+    let mut running: Vec<(Job, Spawned)> = vec![];
+    while !queue.is_empty() || !running.is_empty() {
+        while running.len() < threads.max(1) {
+            let Some(job) = queue.pop_front() else { break };
+            let fw = &mut fws[job.fixture];
+            if fw.failed {
+                continue;
+            }
+            fw.started.get_or_insert_with(Instant::now);
             let mut extra: Vec<(&str, String)> = vec![];
-            if !skip.is_empty() {
+            if !job.skip.is_empty() {
                 extra.push((
                     "skip",
-                    skip.iter().map(|i| i.to_string()).collect::<Vec<_>>().join(","),
+                    job.skip.iter().map(|i| i.to_string()).collect::<Vec<_>>().join(","),
                 ));
             }
-            match spawn_child(name, tier, &workdir, threads, &extra, sweep_timeout) {
-                ChildEnd::Clean => break,
-                ChildEnd::Died(how) => {
-                    restarts += 1;
-                    let tail = stderr_tail(&workdir);
-                    let cands = in_flight(&workdir);
-                    let mut culprits = vec![];
-                    for idx in cands.iter() {
-                        // replay before report: the case must bring a child down twice, alone
-                        let one = work.sub(&format!("{name}-one"));
+            let sp = spawn_child(
+                &fw.name,
+                tier,
+                &fw.workdir,
+                job.shard,
+                fw.nshards,
+                &extra,
+                sweep_timeout,
+            );
+            running.push((job, sp));
+        }
+        let mut i = 0;
+        let mut progressed = false;
+        while i < running.len() {
+            let (job, sp) = &mut running[i];
+            let fw = &fws[job.fixture];
+            let Some(end) = poll_child(sp, &fw.name, &fw.workdir, job.shard) else {
+                i += 1;
+                continue;
+            };
+            progressed = true;
+            let (mut job, _) = running.swap_remove(i);
+            let fw = &mut fws[job.fixture];
+            match end {
+                None => {
+                    fw.done_shards += 1;
+                    if fw.done_shards == fw.nshards {
+                        fw.finished = Some(Instant::now());
+                    }
+                }
+                Some(how) => {
+                    job.restarts += 1;
+                    let tail = stderr_tail(&fw.workdir, job.shard);
+                    let cand = in_flight(&fw.workdir, job.shard);
+                    let mut culprit = None;
+                    if let Some(idx) = cand {
+                        // replay before report: the case must bring a process down twice, alone
+                        let one = work.sub(&format!("{}-one", fw.name));
                         std::fs::create_dir_all(&one).expect("workdir");
                         let mut ends = vec![];
                         for _ in 0..2 {
-                            let e = spawn_child(
-                                name,
+                            let sp = spawn_child(
+                                &fw.name,
                                 tier,
                                 &one,
+                                0,
                                 1,
                                 &[("only", idx.to_string())],
                                 per_case_timeout,
                             );
-                            match e {
-                                ChildEnd::Clean => break,
-                                ChildEnd::Died(h) => ends.push((h, stderr_tail(&one))),
+                            match wait_child(sp, &fw.name, &one, 0) {
+                                None => break,
+                                Some(h) => ends.push((h, stderr_tail(&one, 0))),
                             }
                         }
                         if ends.len() == 2 {
-                            culprits.push(*idx);
-                            let d = &cases[*idx];
+                            culprit = Some(idx);
+                            let d = &fw.cases[idx];
                             let what = if ends[0].0.starts_with("hang") {
                                 "hang".to_string()
                             } else {
@@ -613,76 +765,96 @@ fn parent_main(args: &Args) {
                                 property: PROP.to_string(),
                                 signature: format!(
                                     "c09:{}:{}:{}:{what}",
-                                    runner.fx.kind.name(),
-                                    runner.region_name(d),
+                                    fw.runner.fx.kind.name(),
+                                    fw.runner.region_name(d),
                                     d.class()
                                 ),
                                 detail: format!(
                                     "{} damaged at {}: the reading process did not survive ({}); stderr: {}",
-                                    name,
-                                    runner.where_text(d),
+                                    fw.name,
+                                    fw.runner.where_text(d),
                                     ends[0].0,
                                     ends[0].1
                                 ),
-                                case: runner.case_json(d),
+                                case: fw.runner.case_json(d),
                             });
                         }
                     }
-                    if culprits.is_empty() {
-                        total.count("unattributed_child_deaths", 1);
-                        total.notes.insert(
-                            format!("unattributed_child_death:{name}"),
-                            json!({"how": how, "stderr": tail, "in_flight": cands}),
-                        );
-                        if restarts >= 2 {
-                            total.cap(&format!(
-                                "sweep of {name} abandoned: the child died ({how}) and no single case reproduces it"
-                            ));
-                            break;
+                    match culprit {
+                        Some(idx) => job.skip.push(idx),
+                        None => {
+                            total.count("unattributed_child_deaths", 1);
+                            total.notes.insert(
+                                format!("unattributed_child_death:{}:{}", fw.name, job.shard),
+                                json!({"how": how, "stderr": tail, "in_flight": cand}),
+                            );
                         }
                     }
-                    skip.extend(culprits);
-                    if restarts >= 8 {
-                        total.cap(&format!("sweep of {name} abandoned after 8 child deaths"));
-                        break;
+                    if job.restarts >= 8 || (culprit.is_none() && job.restarts >= 2) {
+                        total.cap(&format!(
+                            "sweep of {} abandoned: a child died ({how}) {} times",
+                            fw.name, job.restarts
+                        ));
+                        fw.failed = true;
+                    } else {
+                        queue.push_front(job);
                     }
                 }
             }
         }
-        // merge the child's result
-        let Ok(rs) = std::fs::read_to_string(workdir.join("result.json")) else {
+        if !progressed {
+            std::thread::sleep(Duration::from_millis(5));
+        }
+    }
+    // merge the shard results
+    let mut fixtures_json = vec![];
+    for fw in fws.iter() {
+        let name = &fw.name;
+        if fw.failed {
             fixtures_json.push(json!({"fixture": name, "completed": false}));
             continue;
-        };
-        let r: Value = serde_json::from_str(&rs).expect("child result is JSON");
-        if r["cases"].as_u64() != Some(cases.len() as u64) {
-            machinery(&format!("child and parent enumerate {name} differently"));
         }
         let mut part = Report::new("damage", PROP);
-        part.evaluations = r["evaluations"].as_u64().unwrap_or(0);
-        part.traces_validated = part.evaluations;
-        part.transitions = r["transitions"].as_u64().unwrap_or(0);
-        for o in r["outcomes"].as_array().unwrap() {
-            part.outcomes.insert(o.as_u64().unwrap());
+        let mut flags: Vec<u8> = vec![0; fw.cases.len()];
+        let mut max_alloc = 0u64;
+        for shard in 0..fw.nshards {
+            let rs = std::fs::read_to_string(fw.workdir.join(format!("result-{shard}.json")))
+                .expect("shard result");
+            let r: Value = serde_json::from_str(&rs).expect("child result is JSON");
+            if r["cases"].as_u64() != Some(fw.cases.len() as u64) {
+                machinery(&format!("child and parent enumerate {name} differently"));
+            }
+            let mut one = Report::new("damage", PROP);
+            one.evaluations = r["evaluations"].as_u64().unwrap_or(0);
+            one.traces_validated = one.evaluations;
+            one.transitions = r["transitions"].as_u64().unwrap_or(0);
+            for o in r["outcomes"].as_array().unwrap() {
+                one.outcomes.insert(o.as_u64().unwrap());
+            }
+            for s in r["samples"].as_array().unwrap().iter().take(1) {
+                one.samples.push(s.clone());
+            }
+            for v in r["violations"].as_array().unwrap() {
+                one.violations.push(Violation {
+                    property: PROP.to_string(),
+                    signature: v["signature"].as_str().unwrap().to_string(),
+                    detail: v["detail"].as_str().unwrap().to_string(),
+                    case: v["case"].clone(),
+                });
+            }
+            for (k, n) in r["violation_sigs"].as_object().unwrap() {
+                one.violation_sigs.insert(k.clone(), n.as_u64().unwrap());
+            }
+            for (k, n) in r["counters"].as_object().unwrap() {
+                one.counters.insert(k.clone(), n.as_u64().unwrap());
+            }
+            max_alloc = max_alloc.max(r["global_max_alloc"].as_u64().unwrap_or(0));
+            part.merge(one);
+            let f = std::fs::read(fw.workdir.join(format!("flags-{shard}.bin"))).unwrap_or_default();
+            for (i, b) in f.iter().enumerate() {
+                flags[i] |= *b;
+            }
         }
-        for s in r["samples"].as_array().unwrap().iter().take(2) {
-            part.samples.push(s.clone());
-        }
-        for v in r["violations"].as_array().unwrap() {
-            part.violations.push(Violation {
-                property: PROP.to_string(),
-                signature: v["signature"].as_str().unwrap().to_string(),
-                detail: v["detail"].as_str().unwrap().to_string(),
-                case: v["case"].clone(),
-            });
-        }
-        for (k, n) in r["violation_sigs"].as_object().unwrap() {
-            part.violation_sigs.insert(k.clone(), n.as_u64().unwrap());
-        }
-        for (k, n) in r["counters"].as_object().unwrap() {
-            part.counters.insert(k.clone(), n.as_u64().unwrap());
-        }
-        let flags = std::fs::read(workdir.join("flags.bin")).unwrap_or_default();
         let mut nontrivial = 0u64;
         for (idx, f) in flags.iter().enumerate() {
             if *f & 1 == 1 {
@@ -695,19 +867,24 @@ fn parent_main(args: &Args) {
             }
         }
         let mut region_sizes = serde_json::Map::new();
-        for reg in runner.fx.regions.iter() {
+        for reg in fw.runner.fx.regions.iter() {
             let e = region_sizes.entry(reg.name.to_string()).or_insert(json!(0));
             *e = json!(e.as_u64().unwrap() + reg.range.len() as u64);
         }
         fixtures_json.push(json!({
             "fixture": name,
-            "describe": r["describe"],
+            "describe": fw.runner.fx.describe,
             "region_bytes": region_sizes,
-            "cases": cases.len(),
+            "cases": fw.cases.len(),
+            "cases_run": part.evaluations,
             "cases_past_the_first_gate": nontrivial,
             "distinct_outcomes": part.outcomes.len(),
-            "largest_allocation_request": r["global_max_alloc"],
-            "wall_s": started.elapsed().as_secs_f64(),
+            "largest_allocation_request_in_a_subject_step": max_alloc,
+            "shards": fw.nshards,
+            "wall_s": match (fw.started, fw.finished) {
+                (Some(a), Some(b)) => (b - a).as_secs_f64(),
+                _ => 0.0,
+            },
         }));
         total.merge(part);
     }
@@ -725,11 +902,11 @@ fn parent_main(args: &Args) {
         },
         "fixtures": fixtures_json,
     });
-    total.rule = "every case is one damaged copy of one pristine file produced by the real builders; the full read program of the file kind runs on it (SST: Sst::new, metadata, forward walk, backward walk, load of every key at several timestamps and of absent keys; log: LogIterator drain, log_to_builder into an SstBuilder, log_to_setsum; manifest: ManifestIterator drain, Manifest::verify, Manifest::open + strs/info; store: KeyValueStore::open, loads, full scan) and every step must return an error or exactly what the same step returned on the pristine file (entries produced before an error must be a prefix of the pristine ones). Accepted by contract: a truncated or extended log may read as a prefix of whole batches then end or error (C12); a truncated manifest may read as a prefix of whole edits (C13); SstMetadata.file_size of a file whose length changed. distinct = (fixture, damage) after merging overwrites that produce the same bytes; non-trivial = the damaged file got past the first gate (Sst::new / first log entry / first manifest edit / KeyValueStore::open succeeded), so deeper code ran on damaged input; outcome = per-step result classes (ok / error code / panic) with entry counts. Sweeps run in a child process per file with the in-flight case index written ahead; a single allocation request above max(64 MiB, 4 x file size) is flagged.".into();
+    total.rule = "every case is one damaged copy of one pristine file produced by the real builders; the full read program of the file kind runs on it (SST: Sst::new, metadata, forward walk, backward walk, load of every key at several timestamps and of absent keys; log: LogIterator drain, log_to_builder into an SstBuilder, log_to_setsum; manifest: ManifestIterator drain, Manifest::verify, Manifest::open + strs/info; store: KeyValueStore::open, loads, full scan) and every step must return an error or exactly what the same step returned on the pristine file (entries produced before an error must be a prefix of the pristine ones). Accepted by contract: a truncated or extended log may read as a prefix of whole batches then end or error (C12); a truncated manifest may read as a prefix of whole edits (C13); SstMetadata.file_size of a file whose length changed. distinct = (fixture, damage) after merging overwrites that produce the same bytes; non-trivial = the damaged file got past the first gate (Sst::new / first log entry / first manifest edit / KeyValueStore::open succeeded), so deeper code ran on damaged input; outcome = per-step result classes (ok / error code / panic) with entry counts. Sweeps run in single-threaded child processes (shards of one file's case list) with the in-flight case index written ahead; a single allocation request above max(64 MiB, 4 x file size) is flagged for SSTs and manifests; for logs the bound is the reader's own frame cap TABLE_FULL_SIZE (960 MiB).".into();
     total.assumptions = vec![
         "damage is applied to one file at a time; the other files of a manifest directory or store stay pristine".into(),
         "for the two ~1 MiB logs byte damage and truncation are restricted to the stated windows (all headers +-16 bytes, the padding, 64 bytes either side of the 1 MiB boundary, the last 32 bytes)".into(),
-        "the counting allocator throttles requests >= 64 MiB to 4 at a time and refuses requests >= 8 GiB (the process then aborts and the parent records it)".into(),
+        "the counting allocator throttles requests >= 64 MiB to 4 at a time per process and refuses requests >= 8 GiB (the process then aborts and the parent records it)".into(),
     ];
     total.finish(args, "damage");
     let sigs: Vec<String> = total
@@ -758,25 +935,28 @@ fn replay(rf: &Value) {
     println!("replaying {name} with damage {}", d.to_json());
     if want.contains(":abort(") || want.ends_with(":hang") {
         let work = Scratch::new("damage-replay");
-        let end = spawn_child(
+        let sp = spawn_child(
             &name,
             "quick",
             &work.path,
+            0,
             1,
             &[("damage", d.to_json().to_string()), ("only", "0".to_string())],
             Duration::from_secs(60),
         );
-        match end {
-            ChildEnd::Clean => {
+        match wait_child(sp, &name, &work.path, 0) {
+            None => {
                 println!("expected: the reader returns; observed: it returned");
+                drop(work);
                 std::process::exit(0);
             }
-            ChildEnd::Died(how) => {
+            Some(how) => {
                 println!(
-                    "expected: the reader returns an error or the pristine data; observed: the process {how}; stderr: {}",
-                    stderr_tail(&work.path)
+                    "expected: the reader returns an error or the pristine data; observed: the process ended with {how}; stderr: {}",
+                    stderr_tail(&work.path, 0)
                 );
                 println!("REPRODUCED {want}");
+                drop(work);
                 std::process::exit(1);
             }
         }
@@ -801,6 +981,7 @@ fn replay(rf: &Value) {
         println!("REPRODUCED {want}");
     }
     std::io::stdout().flush().ok();
+    drop(scratch);
     std::process::exit(if r.findings.is_empty() { 0 } else { 1 });
 }
 
